@@ -39,7 +39,7 @@ CARDS = {'NO_RESULT': 0x6e, 'AT_MOST_ONE': 0x6f, 'ONE': 0x41, 'MANY': 0x6d, 'AT_
 def load_corpus() -> dict:
     """regression cases (run first)"""
     import os
-    out = {'id_calls': [], 'stub_nested_tuples': [], 'queries': [], 'id_clash_pairs': []}
+    out = {'id_calls': [], 'stub_nested_tuples': [], 'queries': [], 'id_clash_pairs': [], 'stub_types': []}
     d = os.path.join(core.VERIF, 'corpus', 'C14')
     if os.path.isdir(d):
         for fn in sorted(os.listdir(d)):
@@ -59,7 +59,7 @@ def tup(x):
         return ('T', [tup(t) for t in x[1]])
     if k == 'NT':
         return ('NT', [(n, tup(t)) for (n, t) in x[1]])
-    if k in ('A', 'R', 'SET'):
+    if k in ('A', 'R', 'MR', 'SET'):
         return (k, tup(x[1]))
     if k == 'SH':
         return ('SH', x[1], [(n, c, tup(t), bool(l), bool(lp)) for (n, c, t, l, lp) in x[2]])
@@ -1219,6 +1219,28 @@ class Run:
     def stream_a(self, n_worlds: int):
         st, rng = self.st, self.ctx.rng
         PV1, PV2 = [(1, 0), (1, 0), (0, 13)], [(2, 0), (3, 0)]
+        for ci, spec in enumerate(load_corpus()['stub_types']):      # regression cases first
+            w = World(self.sx, rng, False)
+
+            def build(x, w=w):
+                """every mention is a separate stub object (as separate type references are)"""
+                if isinstance(x, str):
+                    return w.fund[x]
+                kind, arg = x
+                if kind == 'tuple':
+                    subs = [build(a) for a in arg]
+                    nm = 'tuple<' + ', '.join(w.tname(t) for t in subs) + '>'
+                    return self.sx.mk(self.sx.XTuple, w.rid(), x_subs=subs, x_names=None, x_name=nm,
+                                      x_persistent=False)
+                cls = {'array': self.sx.XArray, 'range': self.sx.XRange, 'multirange': self.sx.XMultiRange}[kind]
+                el = build(arg)
+                return self.sx.mk(cls, w.rid(), x_subs=[el], x_name=f'{kind}<{w.tname(el)}>', x_persistent=False)
+            t = build(spec)
+            for pv in ((1, 0), (2, 0), (3, 0)):
+                self.schema_case(w, 'corpus', lambda pv=pv, t=t, w=w: st.describe(
+                    w.schema, t, protocol_version=pv)[0],
+                    lambda pv=pv, t=t, w=w: w.abs(t, pv >= (2, 0)), pv,
+                    replay=f'corpus/C14 stub_types[{ci}] {json.dumps(spec)} pv={pv}')
         for ci, pair in enumerate(load_corpus()['stub_nested_tuples']):      # regression cases first
             w = World(self.sx, rng, True)
             i64 = w.fund['std::int64']
@@ -1875,9 +1897,10 @@ def internal_name(exp):
     k = exp[0]
     if k == 'S':
         return exp[1]
-    if k in ('A', 'R'):
+    if k in ('A', 'R', 'MR'):
         sub = internal_name(exp[1])
-        return None if sub is None else {'A': 'array', 'R': 'range'}[k] + '<' + s_name.mangle_name(sub) + '>'
+        return None if sub is None else {'A': 'array', 'R': 'range', 'MR': 'multirange'}[k] + '<' + \
+            s_name.mangle_name(sub) + '>'
     if k == 'T':
         subs = [internal_name(t) for t in exp[1]]
         return None if None in subs else 'tuple<' + s_name.mangle_name(', '.join(subs)) + '>'
@@ -1892,7 +1915,7 @@ def mangled_collection_name(n: Node, exp):
     """(descriptor name, schema type name) when the root collection descriptor carries the
     internal mangled name and that differs from the name the schema reflects"""
     from edb.schema import name as s_name
-    if exp[0] not in ('A', 'R', 'T', 'NT') or n.meta is None:
+    if exp[0] not in ('A', 'R', 'MR', 'T', 'NT') or n.meta is None:
         return None
     internal = internal_name(exp)
     got = n.meta[0].decode()
@@ -1909,7 +1932,7 @@ def exp_has_dups(exp) -> bool:
         if len({n for n, _ in names}) != len(names):
             return True
         return any(not isinstance(e[2], str) and exp_has_dups(e[2]) for e in exp[2])
-    if k in ('A', 'R', 'SET'):
+    if k in ('A', 'R', 'MR', 'SET'):
         return exp_has_dups(exp[1])
     if k == 'T':
         return any(exp_has_dups(t) for t in exp[1])
@@ -2342,8 +2365,8 @@ def l2_match(n: Node, exp, v2, facts, path='$'):
                     bad.append(f'{path}: ancestors {got_anc} of {exp[1]}, schema says {want_anc}')
             elif n.kind == 'scalar' and (len(n.post) != 1 or n.post[0].id != schema_ids[want_anc[-1]]):
                 bad.append(f'{path}: base type of {exp[1]} is not {want_anc[-1]}')
-    elif k in ('A', 'R', 'SET'):
-        kind = {'A': 'array', 'R': 'range', 'SET': 'set'}[k]
+    elif k in ('A', 'R', 'MR', 'SET'):
+        kind = {'A': 'array', 'R': 'range', 'MR': 'mrange', 'SET': 'set'}[k]
         if n.kind != kind or len(n.pre) != 1:
             bad.append(f'{path}: {n.kind} where {kind} is expected')
         else:
